@@ -57,13 +57,14 @@ theorem rampSpatialSk_even (P : Nat) (hP : P % 2 = 0) :
       simp [List.getD_eq_getElem?_getD, List.getElem?_map, List.getElem?_eq_getElem hj2]
     · simp [h0, h1]
 
-/-- **even sizes**: skimage's literal construction is the closed form `fourierFilterSk` -/
-theorem fourierFilterSkE_even (P : Nat) (hP : P % 2 = 0) (name : String) (nm : FilterName)
+/-- **even sizes ≥ 2**: skimage's literal construction is the closed form `fourierFilterSk` -/
+theorem fourierFilterSkE_even (P : Nat) (hP : P % 2 = 0) (h0 : P ≠ 0) (name : String) (nm : FilterName)
     (hnm : parseFilter name = some nm) :
     (fourierFilterSkE P name : Except String (List ℝ)) = .ok (fourierFilterSk nm P) := by
   unfold fourierFilterSkE
   have hlen : (nListSk P).length = P / 2 := by rw [nListSk_even P hP]; simp [nList_length]
-  simp only [hlen, ne_eq, not_true_eq_false, false_and, if_false, hnm, Option.getD_some, rampSpatialSk_even P hP]
+  simp only [hlen, ne_eq, not_true_eq_false, false_and, if_false, h0, hnm, Option.getD_some,
+    rampSpatialSk_even P hP]
   unfold fourierFilterSk fourierFilterWith rampFilter
   cases nm <;> rfl
 
@@ -92,22 +93,41 @@ theorem fourierFilter_size_one :
     simp [nListSk, parseFilter, rampSpatialSk, Dft.dft]
 
 
-/-- **every size except 1, every filter name**: the port (with its explicit check) and
+/-- **size 0**: both constructions reject it, with different exception classes (the port in
+`torch.arange(-1, 0, -2)`, scikit-image in `f[0] = 0.25` on the empty array), for every name -/
+theorem fourierFilter_size_zero (name : String) :
+    (fourierFilterTorchE 0 name : Except String (List ℝ)) = .error "RuntimeError" ∧
+    (fourierFilterSkE 0 name : Except String (List ℝ)) = .error "IndexError" := by
+  constructor
+  · unfold fourierFilterTorchE; simp
+  · unfold fourierFilterSkE; simp [nListSk]
+
+/-- **every size except 0 and 1, every filter name**: the port (with its explicit check) and
 scikit-image's literal construction (with its implicit broadcast failure) have the same outcome -/
-theorem fourierFilterE_agree (P : Nat) (hP1 : P ≠ 1) (name : String) (nm : FilterName)
+theorem fourierFilterE_agree (P : Nat) (hP0 : P ≠ 0) (hP1 : P ≠ 1) (name : String) (nm : FilterName)
     (hnm : parseFilter name = some nm) :
     (fourierFilterTorchE P name : Except String (List ℝ)) = fourierFilterSkE P name := by
   by_cases hP : P % 2 = 0
-  · rw [fourierFilterSkE_even P hP name nm hnm]
+  · rw [fourierFilterSkE_even P hP hP0 name nm hnm]
     unfold fourierFilterTorchE
-    simp only [hP, ne_eq, not_true_eq_false, if_false, hnm]
-    by_cases h2 : 2 ≤ P
-    · rw [fourierFilter_agree nm P h2]
-    · have : P = 0 := by omega
-      subst this
-      cases nm <;> simp [fourierFilterTorch, fourierFilterSk, fourierFilterWith]
+    simp only [hP, hP0, ne_eq, not_true_eq_false, if_false, hnm]
+    rw [fourierFilter_agree nm P (by omega)]
   · have hodd : P % 2 = 1 := by omega
     have := fourierFilter_odd_rejected P hodd (by omega) name
     rw [this.1, this.2]
+
+/-- an unknown filter name is a ValueError of the port for every even size ≥ 2 -/
+theorem fourierFilterTorchE_unknown (P : Nat) (hP : P % 2 = 0) (h0 : P ≠ 0) (name : String)
+    (hnm : parseFilter name = none) :
+    (fourierFilterTorchE P name : Except String (List ℝ)) = .error "ValueError" := by
+  unfold fourierFilterTorchE
+  simp [hP, h0, hnm]
+
+/-- a known filter name and an even size ≥ 2: the port returns the closed form -/
+theorem fourierFilterTorchE_ok (P : Nat) (hP : P % 2 = 0) (h0 : P ≠ 0) (name : String) (nm : FilterName)
+    (hnm : parseFilter name = some nm) :
+    (fourierFilterTorchE P name : Except String (List ℝ)) = .ok (fourierFilterTorch nm P) := by
+  unfold fourierFilterTorchE
+  simp [hP, h0, hnm]
 
 end QuantemModel.Radon
